@@ -17,6 +17,22 @@ CLAIMS: dict[str, dict] = {
                 "Set-level statement is checked by the spec predicate on every case; its Lean proof covers single policies (sets: see DESIGN).",
         "technique": "Lean 4 proof over a hand-written model + differential correspondence check",
     },
+    "C18": {
+        "text": "Lean theorems about a model of StaticRoleResolver.expand written as the code is (worklist popped from the end, visited set, "
+                "sorted): membership in the result is exactly reachability along configured inheritance edges from a given role (both directions, "
+                "by loop invariants, any graph incl. cycles/self-loops/non-key parents/duplicates, any role list), the result is strictly increasing "
+                "in code-point order hence duplicate-free, empty/None give [], termination is by well-founded recursion (no fuel); for the engine "
+                "model: the resolver's answer is the env's subject.roles seen by conditions and carried by the audit record, the subject's own roles "
+                "when the resolver fails, and the whole result equals that of a resolver-less engine given the expanded roles. Tied to the code on "
+                "every run: exhaustive graphs over <=3 (quick) / <=4 (thorough) roles x all role lists of length <=3, random graphs <=12 nodes, "
+                "non-ASCII sort-order corpus against the real resolver, and the real Guard with sync/async/raising resolvers; an independent "
+                "closure verdict (proved sound and complete in Lean) is evaluated on the implementation's own output.",
+        "design_ref": "DESIGN.md §5 C18",
+        "note": "Trusted: Lean kernel; hand-written models (Model/Roles.lean, Model/Engine.lean) validated differentially (not verified) against "
+                "the code; harness generators; Python's str ordering = code-point order (checked by the corpus). Domain: role names are str of "
+                "Unicode scalar values; subject.roles is a list or None.",
+        "technique": "Lean 4 proof over a hand-written model + differential correspondence check",
+    },
 }
 
 ALL = [f"C{i:02d}" for i in range(1, 21)]
